@@ -11,7 +11,6 @@ import (
 	mhub2types "github.com/MinterTeam/mhub2/module/x/mhub2/types"
 	sdk "github.com/cosmos/cosmos-sdk/types"
 	stakingtypes "github.com/cosmos/cosmos-sdk/x/staking/types"
-	"github.com/gogo/protobuf/proto"
 )
 
 // ------------------------------------------------------------------------------------------------
@@ -108,10 +107,9 @@ func (o *C14) AfterTx(w *World, r *TxResult) {
 		if err != nil {
 			continue
 		}
-		content, err := proto.Marshal(cm.Event)
-		if err != nil {
-			continue
-		}
+		// what the claim says, field by field (the spelling of a member address and the order of members are
+		// not fields: the same 20 bytes and the same set are the same report)
+		content := []byte(eventText(ev))
 		key := fmt.Sprintf("%s/%d", chain, ev.GetEventNonce())
 		cur := claimSeen{content: content, id: ids[i], mut: r.Tx.Meta["mut"], etype: eventTypeName(ev)}
 		for _, old := range o.seen[key] {
@@ -133,6 +131,56 @@ func (o *C14) AfterTx(w *World, r *TxResult) {
 			}
 		}
 		o.seen[key] = append(o.seen[key], cur)
+	}
+	o.voteLandsOnOwnEvent(w, r)
+}
+
+// voteLandsOnOwnEvent: whatever record a validator's vote is added to by this transaction holds exactly the
+// event that validator reported (also for a vote that arrives after the nonce was settled).
+func (o *C14) voteLandsOnOwnEvent(w *World, r *TxResult) {
+	t := w.T()
+	chain := r.Tx.Meta["chain"]
+	val, ok := w.valOfSigner(chain, r.Tx.Signer)
+	if !ok {
+		return
+	}
+	count := func(s *Snap, key []byte) int {
+		n := 0
+		for _, rec := range s.Votes[chain] {
+			if bytes.Equal(rec.Key, key) {
+				for _, v := range rec.Rec.Votes {
+					if v == val.String() {
+						n++
+					}
+				}
+			}
+		}
+		return n
+	}
+	said := map[uint64][]string{}
+	for _, m := range r.Tx.Msgs {
+		if cm, ok := m.(*mhub2types.MsgSubmitExternalEvent); ok && cm.ChainId == chain {
+			if ev := DecodeEvent(cm.Event); ev != nil {
+				said[ev.GetEventNonce()] = append(said[ev.GetEventNonce()], eventText(ev))
+			}
+		}
+	}
+	for _, rec := range t.Cur.Votes[chain] {
+		if count(t.Cur, rec.Key) <= count(t.Prev, rec.Key) {
+			continue
+		}
+		w.St.Check("C14:vote-on-own-event")
+		stored := eventText(DecodeEvent(rec.Rec.Event))
+		match := false
+		for _, x := range said[rec.Nonce] {
+			if x == stored {
+				match = true
+			}
+		}
+		if !match {
+			w.Fail("C14", "separate-records", "vote-on-other-event", fmt.Sprintf("%s nonce %d: the vote of %s was added to a record that holds %s, but that validator reported %v", chain, rec.Nonce, val, stored, said[rec.Nonce]))
+			return
+		}
 	}
 }
 
